@@ -237,8 +237,10 @@ fn random_soup(src: &mut Src, obs: &mut Obs) -> Res {
 pub fn targeted_inputs() -> Vec<(String, &'static str)> {
     let mut out: Vec<(String, &'static str)> = vec![];
     let ints = ["-0", "00", "01", "-01", "9007199254740992", "-9007199254740992", "9223372036854775807", "-9223372036854775808", "9223372036854775808", "18446744073709551616",
-        "99999999999999999999999999", "1.0", "1e2", "+1", "0x10", " 1 2", "1_000"];
-    let int_frames = ["$[{}]", "$[{}:]", "$[:{}]", "$[::{}]", "$[1:{}:2]", "$..[{}]", "$[0,{}]", "$[?@[{}]==1]", "$[?$[{}]==1]", "$[?@.a[{}].b==1]", "$[?count(@[{}])==1]", "$[?@[?@[{}]]]"];
+        "99999999999999999999999999", "1.0", "1e2", "+1", "0x10", " 1 2", "1_000", "9007199254740993", "-9223372036854775809", "18446744073709551615", "10000000000000000000",
+        "340282366920938463463374607431768211455", "-340282366920938463463374607431768211456", "179769313486231570000000000000000000000000000000000000000000000000000000000000000000000000000000000000000000000000000000000000000000000000000000000000000000000000000000000000000000000000000000000000000000000000000000000000000000000000000000000000000000000000000000000000000000000000000000000000000000000000000000000000000000000000"];
+    // (in the literal frames the forms `1.0`, `1e2`, `-0` are valid numbers: `must_reject` skips what the recogniser accepts)
+    let int_frames = ["$[?@.a=={}]", "$[?{}<@.a]", "$[?@.a!={} && @.b]", "$[?length(@.a)<{}]", "$[?count(@.*)=={}]", "$[?$.a>={}]", "$[?@[?@.a<={}]]", "$[?value(@.a)=={}]","$[{}]", "$[{}:]", "$[:{}]", "$[::{}]", "$[1:{}:2]", "$..[{}]", "$[0,{}]", "$[?@[{}]==1]", "$[?$[{}]==1]", "$[?@.a[{}].b==1]", "$[?count(@[{}])==1]", "$[?@[?@[{}]]]"];
     for f in int_frames {
         for i in ints {
             out.push((f.replace("{}", i), "targeted:integer-form"));
